@@ -100,8 +100,17 @@ def r_header(ctx):
         if loc["pat"].get("k") == "pid" and loc["pat"]["n"] == "has_header":
             dflt = vf.src(loc.get("init"))
     ctx.site(rid, "default", F, fi.line, {"has_header": dflt})
-    if dflt != "has_header.unwrap_or(false)":
-        ctx.violation(rid, "default", F, fi.line, "has_header defaults via `%s` (expected unwrap_or(false))" % dflt)
+    # the default is decided by evaluating the initialiser on None / Some(true) / Some(false)
+    for loc in vf.find(fi.node, "local"):
+        if loc["pat"].get("k") == "pid" and loc["pat"]["n"] == "has_header" and loc.get("init") is not None:
+            for arg, want in ((("None",), False), (("Some", True), True), (("Some", False), False)):
+                try:
+                    v = Interp(env={"has_header": arg}).eval(loc["init"])
+                except Unknown as e:
+                    ctx.incomplete_msg(rid, "default: %s" % e)
+                    continue
+                if v is not want:
+                    ctx.violation(rid, "default", F, fi.line, "has_header = %r is read as %r (the draft's default is no header row)" % (arg, v))
     for hh in (True, False):
         for row in (0, 1, 2):
             field = ("csvfield", "x")
@@ -152,31 +161,64 @@ def r_reader(ctx):
 
 def r_delegate(ctx):
     rid = "C13.delegate"
-    ctx.rule(rid, "validate_csv_from_str (both cfg twins): parses its schema argument, maps its csv_data with its has_header through "
-                  "parse_csv_to_json, constructs JSONValidator from exactly these and its enabled_features, and returns validate()'s result", floor=2)
+    ctx.rule(rid, "validate_csv_from_str (both non-wasm cfg twins): the schema that is parsed is its first argument, the JSON value is "
+                  "parse_csv_to_json of its csv_data and has_header arguments, JSONValidator is constructed from exactly these (and the "
+                  "enabled_features argument when there is one), a failure of either step is returned as an error, and otherwise the result "
+                  "is validate()'s — Ok stays Ok, Err stays Err (abstract evaluation with the four callees scripted)", floor=8)
     f = ctx.facts
     fns = [x for x in f.fn_all(F, "validate_csv_from_str") if 'target_arch="wasm32"' not in x.cfg]
     if not fns:
         raise vf.Incomplete("validate_csv_from_str not found")
     for fi in fns:
         cfgk = ",".join(c for c in fi.cfg if "additional" in c) or "any"
-        calls = {}
-        for n in vf.walk(fi.node):
-            if n["k"] == "call" and n["f"]["k"] == "path":
-                calls[n["f"]["p"].split("::")[-1] if not n["f"]["p"].endswith("::new") else n["f"]["p"]] = [vf.src(a) for a in n["a"]]
-        ctx.site(rid, cfgk, F, fi.line, {"calls": calls})
-        if calls.get("cddl_from_str", [None])[0] != "cddl":
-            ctx.violation(rid, cfgk + "|schema", F, fi.line, "the schema argument is not what is parsed: %s" % calls.get("cddl_from_str"))
-        if calls.get("parse_csv_to_json") != ["csv_data", "has_header"]:
-            ctx.violation(rid, cfgk + "|mapping", F, fi.line, "parse_csv_to_json is called with %s" % calls.get("parse_csv_to_json"))
-        newk = [k for k in calls if k.endswith("JSONValidator::new")]
-        want = ["&cddl_ast", "json_value"] + (["enabled_features"] if "not(" not in cfgk and cfgk != "any" else [])
-        if not newk or calls[newk[0]][:len(want)] != want:
-            ctx.violation(rid, cfgk + "|validator", F, fi.line, "JSONValidator::new is called with %s, expected %s" % (calls.get(newk[0]) if newk else None, want))
-        last = fi.node["body"]["stmts"][-1]
-        s = vf.src(last.get("e")) if last["k"] == "sexpr" else ""
-        if not s.startswith("jv.validate()"):
-            ctx.violation(rid, cfgk + "|result", F, fi.line, "the function's result is `%s`, not jv.validate()'s" % s[:80])
+        off = ("lsp", "_build-parser") + (("additional-controls",) if "not(" in cfgk else ())
+        cfg = lambda c, off=off: absint.eval_cfg(c, lambda ft: ft not in off)
+        params = [inp["pat"]["n"] for inp in fi.node["sig"]["inputs"] if "pat" in inp and inp["pat"]["k"] == "pid"]
+        if len(params) < 3:
+            raise vf.Incomplete("validate_csv_from_str has %d parameters" % len(params))
+        atoms = {p: ("arg", i) for i, p in enumerate(params)}
+        for schema_ok in (True, False):
+            for csv_ok in (True, False):
+                for verdict in ("Ok", "Err"):
+                    key = "%s|schema %s|csv %s|validate %s" % (cfgk, "ok" if schema_ok else "err", "ok" if csv_ok else "err", verdict)
+                    built = []
+
+                    def on_call(kind, nm, node, args, recv, schema_ok=schema_ok, csv_ok=csv_ok, verdict=verdict, built=built):
+                        if kind == "fn" and nm:
+                            b = nm.split("::")[-1]
+                            if b == "cddl_from_str":
+                                return ("Ok", ("ast-of", args[0])) if schema_ok else ("Err", ("str", "schema error"))
+                            if b == "parse_csv_to_json":
+                                return ("Ok", ("json-of", args[0], args[1])) if csv_ok else ("Err", ("str", "csv error"))
+                            if nm.endswith("JSONValidator::new"):
+                                built.append(list(args))
+                                return ("enum", "JSONValidator", {"args": list(args)})
+                            if nm.startswith("Error::"):
+                                return ("enum", nm, list(args))
+                        if kind == "method" and nm == "validate" and isinstance(recv, tuple) and recv[:2] == ("enum", "JSONValidator"):
+                            return ("Ok", ("tuple", [])) if verdict == "Ok" else ("Err", ("str", "validation errors"))
+                        return NotImplemented
+                    it = Interp(env=dict(atoms), cfg=cfg, on_call=on_call)
+                    try:
+                        try:
+                            res = it.block(fi.node["body"])
+                        except Return as r:
+                            res = r.v
+                    except Unknown as e:
+                        ctx.incomplete_msg(rid, "%s: %s" % (key, e))
+                        continue
+                    want_ok = schema_ok and csv_ok and verdict == "Ok"
+                    got_ok = isinstance(res, tuple) and res[0] == "Ok"
+                    ctx.site(rid, key, F, fi.line, {"result": "Ok" if got_ok else "Err", "validator_args": repr(built[:1])[:120]})
+                    if got_ok != want_ok:
+                        ctx.violation(rid, "%s|result" % cfgk, F, fi.line, "validate_csv_from_str returns %s when the schema parse is %s, the CSV mapping %s and "
+                                      "validate() %s" % ("Ok" if got_ok else "Err", "ok" if schema_ok else "an error", "ok" if csv_ok else "an error", verdict))
+                    if schema_ok and csv_ok:
+                        want = [("ast-of", ("arg", 0)), ("json-of", ("arg", 1), ("arg", 2))] + ([("arg", 3)] if len(params) > 3 else [])
+                        if not built or built[0] != want:
+                            ctx.violation(rid, "%s|validator" % cfgk, F, fi.line,
+                                          "JSONValidator::new receives %r; expected the parsed first argument, the CSV mapping of arguments 2 and 3%s"
+                                          % (built[:1], " and the features argument" if len(params) > 3 else ""))
 
 
 def run(ctx):
